@@ -21,18 +21,24 @@ def J(harness, runs, crate="sim", **kw):
 
 
 PLAN = {
-    "C01": {"quick": [J("udp_store", 40000)], "thorough": [J("udp_store", 3000000)]},
+    "C01": {"quick": [J("udp_store", 40000)], "thorough": [J("udp_store", 3000000), J("udp_sys", 50000)]},
+    "C03": {"quick": [J("udp_sys", 1600), J("udp_store", 15000), J("http_store", 15000)],
+            "thorough": [J("udp_sys", 50000), J("udp_store", 500000), J("http_store", 500000)]},
+    "C06": {"quick": [J("udp_sys", 3200)], "thorough": [J("udp_sys", 100000)]},
+    "C12": {"quick": [J("udp_sys", 2400)], "thorough": [J("udp_sys", 50000)]},
+    "C18": {"quick": [J("udp_sys", 480)], "thorough": [J("udp_sys", 10000)]},
+    "C19": {"quick": [J("udp_sys", 2400)], "thorough": [J("udp_sys", 60000)]},
     "C02": {"quick": [J("udp_store", 12000), J("http_store", 30000), J("ws_store", 60000)],
             "thorough": [J("udp_store", 500000), J("http_store", 1500000), J("ws_store", 2000000)]},
     "C04": {"quick": [J("udp_conc", 320, crate="conc")], "thorough": [J("udp_conc", 4000, crate="conc")]},
-    "C05": {"quick": [J("validator", 400000)], "thorough": [J("validator", 10000000)]},
+    "C05": {"quick": [J("validator", 400000)], "thorough": [J("validator", 10000000), J("udp_sys", 50000)]},
     "C07": {"quick": [J("http_store", 60000)], "thorough": [J("http_store", 3000000)]},
     "C08": {"quick": [J("ws_store", 150000)], "thorough": [J("ws_store", 3000000)]},
     "C09": {"quick": [J("ws_store", 150000)], "thorough": [J("ws_store", 3000000)]},
     "C10": {"quick": [J("udp_store", 25000), J("http_store", 40000), J("ws_store", 80000)],
             "thorough": [J("udp_store", 1000000), J("http_store", 1000000), J("ws_store", 1000000)]},
-    "C11": {"quick": [J("accesslist", 8000)], "thorough": [J("accesslist", 200000)]},
-    "C20": {"quick": [J("udp_store", 30000)], "thorough": [J("udp_store", 1000000)]},
+    "C11": {"quick": [J("accesslist", 4000), J("udp_sys", 1200)], "thorough": [J("accesslist", 200000), J("udp_sys", 30000)]},
+    "C20": {"quick": [J("udp_store", 30000), J("udp_sys", 1200)], "thorough": [J("udp_store", 1000000), J("udp_sys", 30000)]},
 }
 
 _STORE_RULE = ("one run = one generated history (announce / scrape / clean / advance-clock operations, config knobs and RNG seed "
@@ -41,6 +47,13 @@ _STORE_RULE = ("one run = one generated history (announce / scrape / clean / adv
                "removal (stop or expiry) and one announce that found other peers; distinct = distinct behaviour signatures, i.e. the "
                "sequence of (operation kind, event, was-present, seeder, swarm-size class before/after, removed-count class, "
                "clean-at-deadline flags) - not merely distinct inputs")
+
+_SYS_RULE = ("one run = one generated scenario (configuration knobs, socket layout, 1-8 client scripts of connects / announces / scrapes / "
+             "malformed datagrams with per-datagram network faults, operator reloads, process faults, scheduler strategy and seed) executed by "
+             "running the tracker's real run(config) inside the discrete-event engine; evaluations = datagrams received by the tracker and "
+             "judged against the protocol model and the reference tracker; non-trivial = at least three answered well-formed requests and one "
+             "rejected datagram; distinct = distinct (oracle outcome sequence, schedule signature) pairs, the schedule signature being the "
+             "sequence of (thread, seam-call kind) over the whole run")
 
 _WS_RULE = ("one run = one generated history of open / announce (with offers, answers) / scrape / close / clean / advance-clock over up to "
             "40 connections on up to 3 simulated socket workers whose connection ids coincide; evaluations = storage calls whose "
@@ -65,6 +78,21 @@ PROPS = {
             "assumptions": ["lock acquisitions/releases are the complete set of scheduling points (std Arc and atomics are not)",
                             "the shuttle-backed RwLock models parking_lot's blocking rules (writer preference, one upgradable reader)",
                             "a history whose linearizability search exceeds its budget is not reported"]},
+    "C03": {"level": "exploration", "rule": _SYS_RULE + "; STORE runs as for C01/C07 with IPv4, IPv6, low (::/96) and IPv4-mapped sources",
+            "expect_probes": ["announce-via-dual-stack-mapped-source", "spoofed-source", "ipv4-mapped-source", "low-ipv6-source"],
+            "assumptions": ["source addresses are assigned by the simulated network; in-request address fields always name another host"]},
+    "C06": {"level": "exploration", "rule": _SYS_RULE,
+            "expect_probes": ["announce-without-valid-id", "scrape-without-valid-id", "malformed-request", "garbage-datagram", "source-port-zero", "scrape-longer-than-limit", "reply-resent-from-resend-buffer", "error-reply-to-malformed-request"],
+            "assumptions": ["mio backend only (the io_uring backend is not simulated)", "worker clock samples may lag by 256 poll timeouts: connection-id validity inside that window is accepted either way"]},
+    "C12": {"level": "exploration", "rule": _SYS_RULE + "; here every client datagram may be truncated, extended, bit-flipped, replaced or spoofed in flight",
+            "expect_probes": ["malformed-request", "garbage-datagram", "spoofed-source"],
+            "assumptions": ["sampled, fault-driven input corruption only - not a substitute for coverage-guided fuzzing of the parsers (weakest claim)", "harness built with overflow checks on; any panic of a tracker thread is a violation"]},
+    "C18": {"level": "exploration", "rule": _SYS_RULE + "; here limits are drawn from {1,30,112,113,170,454,455,1000} x {1,70,170,255} and the workload builds the worst accepted case (swarm > limit, numwant = limit, 255-hash scrape)",
+            "expect_probes": ["scrape-longer-than-limit"],
+            "assumptions": ["mio backend's 8192-byte buffer only", "HTTP part pending HTTP-SYS"]},
+    "C19": {"level": "fault_enumeration", "rule": _SYS_RULE + "; here 85% of the runs inject exactly one worker death: socket set-up failure, loop end, spawn failure, signal iterator closed, panic at the n-th seam call or at a given time, for every worker kind",
+            "expect_probes": ["worker-death-observed"],
+            "assumptions": ["prometheus worker not covered (feature off)", "time only advances when every simulated thread is blocked, so the 10 s bound is exact"]},
     "C05": {"level": "exploration",
             "rule": ("one run = one generated sequence of clock advances, per-worker clock refreshes, id issues, honest checks (same / other "
                      "address, before / at / after expiry, stale or advanced worker clocks) and forgeries (1-bit, 2-bit, arbitrary, other "
@@ -115,6 +143,21 @@ TEXT = {
     "C04": {"engine": "conc", "design_ref": "6.C04", "technique": "seeded schedule exploration (shuttle PCT + random) with a linearizability checker and deadlock detection",
             "level_text": "Seeded exploration of thread interleavings at lock granularity: the real swarm code runs on 2-4 shuttle threads over a shuttle-backed RwLock; each history (plus a final quiescent sweep) must be linearizable against the reference tracker, and any deadlock reported by shuttle is a violation.",
             "level_note": "Schedules are sampled (PCT depth <= 4), not enumerated; Arc::get_mut is evaluated under the shard write lock so lock operations are the only scheduling points that matter."},
+    "C03": {"engine": "sim", "design_ref": "6.C03", "technique": _SIM + " (source addresses assigned by the simulated network)",
+            "level_text": "Seeded exploration: the whole UDP tracker runs in the engine; peers handed out are refined against a reference tracker keyed by the network-level source (canonicalised) and announced port, with spoofed in-request address fields, dual-stack sockets and IPv4-mapped presentation.",
+            "level_note": "HTTP/WS whole-system parts are added by HTTP-SYS / WS-SYS; storage-level address handling is covered by the STORE harnesses."},
+    "C06": {"engine": "sim", "design_ref": "6.C06", "technique": _SIM + " (whole tracker in the engine; oracle over the recorded recv/send event log)",
+            "level_text": "Seeded exploration of the real run(config) under the discrete-event engine with datagram faults: every received datagram is matched with the datagrams its worker sent before its next receive and judged against an independent BEP 15 model.",
+            "level_note": "mio backend only; connection-id validity is modelled with the worker clock lag as an uncertainty interval."},
+    "C12": {"engine": "sim", "design_ref": "6.C12", "technique": _SIM + " (in-flight corruption of client datagrams; panic / overflow monitors)",
+            "level_text": "Seeded exploration with network-driven corruption (truncate, extend, bit flip, replace, spoof) of every datagram kind against the running tracker; any tracker-thread panic or arithmetic overflow is a violation. Weakest claim: only the fault-driven part of the input space.",
+            "level_note": "Not a parser fuzzer; overflow-checks = on in the harness profile."},
+    "C18": {"engine": "sim", "design_ref": "6.C18", "technique": _SIM + " (limit knobs x worst-case accepted request)",
+            "level_text": "Seeded exploration over the configuration limits with worst-case workloads: a well-formed request with a valid id that gets no reply (dropped because the reply does not fit the buffer) is a violation.",
+            "level_note": "mio backend; io_uring buffers are not exercised."},
+    "C19": {"engine": "sim", "design_ref": "6.C19", "technique": "seeded deterministic simulation with worker-death fault enumeration",
+            "level_text": "Fault enumeration: each worker kind x death mode x time is injected into the real run(config); run must return Err within 10 simulated seconds, and must never return without a death.",
+            "level_note": "Time advances only when all threads are blocked, so the bound is exact; prometheus worker not covered."},
     "C05": {"engine": "sim", "design_ref": "6.C05", "technique": _SIM + " (simulated whole-second clock per worker, issue x check time grid, forgeries)",
             "level_text": "Seeded exploration of the real ConnectionValidator: several clones with independently sampled clocks, ages 0..u32::MAX, checks placed one second before / at / after expiry, wrong and IPv4-mapped addresses, four forgery kinds.",
             "level_note": "MAC guessing chance 2^-32 per forged id is handled by re-checking under a second key."},
